@@ -102,6 +102,7 @@ func runC13(c *core.Ctx) core.Meta {
 	c.Load(instsPkg, driverPkg)
 	c.BuildSSA()
 	checkSymbolScansWhole(c)
+	checkNoStateBetweenCalls(c, "R13.11", "loading a kernel is a function of the bytes and the name given: the functions reached from LoadKernelCodeObjectFromBytes / FromELF / FromFS keep nothing in package-level variables (maps, slices, structs). A process-wide memo keyed by the kernel name alone returns the first image's kernel for the same name in another image - the shipped GCN3 and gfx942 builds of one benchmark use identical names", 5, instsPkg, []string{"LoadKernelCodeObjectFromBytes", "LoadKernelCodeObjectFromELF", "LoadKernelCodeObjectFromFS"}, map[string]string{})
 	lp := core.NewLocalProv(c)
 	pi := NewPkgInfo(c, instsPkg)
 
